@@ -102,8 +102,9 @@ def _load_chunk(args):
             seen = text if text[-2:] == "\r\n" else text + "\r\n"
             q = "parseall 1"
         elif route in ("load_strict", "load_deco"):
-            seen = strict_norm(text)
-            q = "parseall 0"
+            # the normalisation is part of the MODEL (Abnf/Norm.lean, theorem C12.load_strict_invalid_defines_nothing): the raw text goes over
+            seen = text
+            q = "parseallstrict 0"
         else:
             seen = text
             q = "parseall 0"
